@@ -6,7 +6,8 @@
     variant when the enum is open, carrying x -- and [Err x] otherwise, in particular
     for every x at or above 2^w. Converting back yields x. *)
 From Coq Require Import NArith List String Bool.
-From PDL Require Import Base.Bits Lang.Ast Lang.Sexp Rust.Enum Proofs.EnumExact.
+From PDL Require Import Base.Bits Lang.Ast Lang.Sexp Analyzer.Passes Rust.Enum Proofs.EnumExact
+     Proofs.AnalyzerEnum.
 Import ListNotations.
 Open Scope N_scope.
 
@@ -30,6 +31,27 @@ Theorem C15_rust_back_conversion :
 Proof. exact rust_try_from_back. Qed.
 Print Assumptions C15_rust_back_conversion.
 
+(** The same for every enum declaration on which the ANALYZER'S OWN check
+    ([check_enum_declaration], the model of analyzer.rs 807-1037, tied to /repo by C08's
+    correspondence) reports nothing: the side conditions on the tags are what that check
+    establishes (Proofs/AnalyzerEnum.v), so nothing is assumed about the tags any more.
+    The two remaining hypotheses say that the generator is defined on the enum (width
+    at most 64, at least one value or range tag). *)
+Theorem C15_accepted_enums_convert_exactly :
+  forall (id : string) (tags : list tag) (w bw : N) (c : bool) (x : N),
+    check_enum_declaration (DEnum id tags w) = [] ->
+    integer_width w = Some bw ->
+    enum_is_complete tags (scalar_max w) = Some c ->
+    x < 2 ^ bw ->
+    rust_enum_try_from tags w x =
+    Some (match spec_enum_of_N tags w x with Some e => TOk e | None => TErr x end).
+Proof.
+  intros id tags w bw c x Hacc Hw Hc Hx.
+  destruct (accepted_enum_is_wellformed id tags w Hacc) as [Hwf Hb].
+  exact (rust_try_from_exact tags w bw c x Hwf Hb Hw Hc Hx).
+Qed.
+Print Assumptions C15_accepted_enums_convert_exactly.
+
 (** what the reference reading says, spelled out: success iff declared value, inside a
     range, or open; integers at or above 2^w are rejected *)
 Theorem C15_spec_reject_wide :
@@ -52,7 +74,8 @@ Definition coffee : list tag :=
 
 Example C15_hypotheses_hold :
   wf_tagsb coffee = true /\ tags_bounded (scalar_max 5) coffee = true
-  /\ integer_width 5 = Some 8 /\ enum_is_complete coffee (scalar_max 5) = Some false.
+  /\ integer_width 5 = Some 8 /\ enum_is_complete coffee (scalar_max 5) = Some false
+  /\ check_enum_declaration (DEnum "CoffeeAddition" coffee 5) = [].
 Proof. repeat split. Qed.
 
 Example C15_values :
